@@ -58,6 +58,25 @@ var Words = []string{
 	"needle", "Needle", "NEEDLE", "need", "-x", "x-", "a-a", ".foo", "x_y", "_x", "func", "main", "if", "x", "y", "z",
 	"été", "ÉTÉ", "Été", "é", "straße", "λογ", "ΛΟΓ", "日本語", "日本", "😀", "naïve", "Go", "go", "GO", "import",
 	"return", "err", "nil", "Test", "test", "TODO", "0", "42", "foo.bar", "a.b", "q",
+	"a[i]", "m{k}", "x@y", "p|q", "a^b", "~x", "c*d", "`q`", "a\\b",
+}
+
+// asciiWords / asciiNames: the ASCII part of the vocabulary, for repositories
+// whose shard is plain ASCII (the index keeps a flag for that).
+var asciiWords, asciiNames = onlyASCII(Words), onlyASCII(fileNames)
+
+func onlyASCII(xs []string) []string {
+	var out []string
+	for _, x := range xs {
+		ok := true
+		for i := 0; i < len(x); i++ {
+			ok = ok && x[i] < 0x80
+		}
+		if ok {
+			out = append(out, x)
+		}
+	}
+	return out
 }
 
 var Seps = []string{" ", " ", " ", "\n", "\n", "\t", "\n\n", "\r\n", "", "(", ")", ".", ", ", ";", "  ", ":", "="}
@@ -96,6 +115,7 @@ type CorpusOpts struct {
 	Tenants                      int // 0 = no tenant ids; else ids in 1..Tenants (and 0)
 	LongLines                    bool
 	ForceCompound                *bool
+	NoTwins                      bool // no near-miss documents (addTwin)
 }
 
 var DefaultCorpus = CorpusOpts{MaxRepos: 4, MaxDocs: 8, MaxTokens: 30, Compound: 35, Tombstones: true, Skips: true, Symbols: true, SubRepos: true, LongLines: true}
@@ -103,6 +123,11 @@ var DefaultCorpus = CorpusOpts{MaxRepos: 4, MaxDocs: 8, MaxTokens: 30, Compound:
 // GenContent assembles a document from vocabulary tokens and returns the
 // content and the [start,end) of each word token.
 func GenContent(g G, maxTokens int, longLines bool) ([]byte, [][2]int) {
+	return GenContentFrom(g, Words, maxTokens, longLines)
+}
+
+// GenContentFrom is GenContent over a given vocabulary.
+func GenContentFrom(g G, Words []string, maxTokens int, longLines bool) ([]byte, [][2]int) {
 	n := g.Int(0, maxTokens, "ntok")
 	var sb strings.Builder
 	var toks [][2]int
@@ -174,13 +199,19 @@ func GenRepo(g G, o CorpusOpts, idx int, name string) Repo {
 	}
 	nd := g.Int(1, o.MaxDocs, "ndocs")
 	used := map[string][]int{} // name -> doc indexes
+	words, names := Words, fileNames
+	if g.Bool(12, "asciirepo") {
+		// a repository (hence a simple shard) of plain ASCII text
+		words, names = asciiWords, asciiNames
+		o.LongLines = false
+	}
 	for i := 0; i < nd; i++ {
-		d := Doc{Name: Pick(g, fileNames, "fname")}
+		d := Doc{Name: Pick(g, names, "fname")}
 		if len(r.SubRepos) > 0 && g.Bool(30, "insub") {
 			d.SubRepo = r.SubRepos[0]
 			d.Name = d.SubRepo + "/" + d.Name
 		}
-		content, toks := GenContent(g, o.MaxTokens, o.LongLines)
+		content, toks := GenContentFrom(g, words, o.MaxTokens, o.LongLines)
 		d.Content = content
 		d.Language = langFor(d.Name)
 		if o.Skips && g.Bool(6, "skip") {
@@ -247,7 +278,81 @@ func GenCorpus(g G, o CorpusOpts) Corpus {
 	} else {
 		c.Compound = g.Bool(o.Compound, "compound")
 	}
+	if !o.NoTwins && g.Bool(25, "twin") {
+		addTwin(g, &c)
+	}
 	return c
+}
+
+// partner20 maps ASCII bytes that are not letters to the byte differing in
+// bit 0x20 only, where that is again a byte that can occur in text.
+var partner20 = map[byte]byte{'[': '{', '{': '[', ']': '}', '}': ']', '@': '`', '`': '@', '^': '~', '~': '^', '|': '\\', '\\': '|',
+	'*': '\n', '\n': '*', ')': '\t', '\t': ')'}
+
+// addTwin adds a near miss to the corpus: a copy of one document that differs
+// in a single ASCII byte, plus a document repeating the few bytes around that
+// position in both variants so that the trigrams containing the changed byte
+// are frequent (the index picks the rarest trigrams of a pattern to find
+// candidates; with these documents the candidates include the near miss, and
+// only comparing every byte tells the two apart). The text around the position
+// is remembered in c.Hot for the pattern generator.
+func addTwin(g G, c *Corpus) {
+	r := &c.Repos[g.U(len(c.Repos), "twrepo")]
+	if len(r.Docs) == 0 {
+		return
+	}
+	di := g.U(len(r.Docs), "twdoc")
+	d := r.Docs[di]
+	b := []byte(d.Content)
+	if d.Skip != 0 || len(b) < 9 {
+		return
+	}
+	var punct, other []int
+	for i := 3; i+3 < len(b); i++ {
+		ascii := true
+		for j := i - 2; j <= i+2; j++ {
+			ascii = ascii && b[j] < 0x80
+		}
+		if !ascii {
+			continue
+		}
+		if _, ok := partner20[b[i]]; ok {
+			punct = append(punct, i)
+		} else if b[i] >= 'a' && b[i] < 'z' || b[i] >= '0' && b[i] < '9' {
+			other = append(other, i)
+		}
+	}
+	pos := punct
+	if len(pos) == 0 || (len(other) > 0 && g.Bool(30, "twletter")) {
+		pos = other
+	}
+	if len(pos) == 0 {
+		return
+	}
+	i := pos[g.U(len(pos), "twpos")]
+	tw := append([]byte(nil), b...)
+	if p, ok := partner20[b[i]]; ok {
+		tw[i] = p
+	} else {
+		tw[i] = b[i] + 1
+	}
+	for _, x := range r.Docs {
+		if x.Name == d.Name+".twin" {
+			return
+		}
+	}
+	twin := Doc{Name: d.Name + ".twin", Content: Text(tw), Branches: append([]string(nil), d.Branches...), Language: d.Language, SubRepo: d.SubRepo}
+	noise := Doc{Name: d.Name + ".noise", Branches: append([]string(nil), d.Branches...), Language: d.Language, SubRepo: d.SubRepo,
+		Content: Text(strings.Repeat(string(b[i-2:i+3])+" ", 4) + strings.Repeat(string(tw[i-2:i+3])+" ", 4) + "\n")}
+	r.Docs = append(r.Docs, twin, noise)
+	lo, hi := max(0, i-g.Int(3, 8, "twlo")), min(len(b), i+1+g.Int(3, 8, "twhi"))
+	for lo > 0 && !utf8.RuneStart(b[lo]) {
+		lo--
+	}
+	for hi < len(b) && !utf8.RuneStart(b[hi]) {
+		hi++
+	}
+	c.Hot = append(c.Hot, string(b[lo:hi]), string(tw[lo:hi]))
 }
 
 // ---- queries ----
@@ -296,6 +401,9 @@ func GenPattern(g G, c *Corpus, fromName bool) string {
 			return Pick(g, Words, "pw")
 		}
 		return s
+	}
+	if len(c.Hot) > 0 && !fromName && g.Bool(25, "hot") {
+		return Pick(g, c.Hot, "hotpat")
 	}
 	k := g.Int(0, 9, "patkind")
 	switch {
@@ -377,7 +485,7 @@ func GenRegexpText(g G, c *Corpus, fromName bool, allowAssert bool) (string, []s
 		return regexp.QuoteMeta(p)
 	}
 	word := func() string { return regexp.QuoteMeta(Pick(g, Words, "rw")) }
-	k := g.U(16, "rekind")
+	k := g.U(18, "rekind")
 	if !allowAssert && (k == 3 || k == 6 || k == 7) {
 		k = 1
 	}
@@ -385,7 +493,7 @@ func GenRegexpText(g G, c *Corpus, fromName bool, allowAssert bool) (string, []s
 	case 0:
 		return lit(), []string{"re:literal"}
 	case 1:
-		glue := Pick(g, []string{".*", `\s*`, "[a-z]+", `\n`, ".", `\w+`, " ?", `\s+`, `.*\n.*`, `[^x]*`}, "glue")
+		glue := Pick(g, []string{".*", `\s*`, "[a-z]+", `\n`, ".", `\w+`, " ?", `\s+`, `.*\n.*`, `[^x]*`, `(?s:.*)`, `(.|\n)*`, `[\s\S]*`}, "glue")
 		return lit() + glue + lit(), []string{"re:concat"}
 	case 2:
 		n := g.Int(2, 4, "nalt")
@@ -444,9 +552,65 @@ func GenRegexpText(g G, c *Corpus, fromName bool, allowAssert bool) (string, []s
 			return s, []string{"re:sameline"}
 		}
 		return lit() + ".*" + lit(), []string{"re:concat"}
+	case 16, 17:
+		// two words of different lines of one document, in order, joined by a
+		// star that does (or, for plain .*, does not) cross line ends
+		if a, b, ok := crossLinePair(g, c); ok {
+			switch g.U(6, "dotall") {
+			case 0:
+				return "(?s)" + a + ".*" + b, []string{"re:dotall"}
+			case 1:
+				return a + "(?s:.*)" + b, []string{"re:dotall"}
+			case 2:
+				return a + `(.|\n)*` + b, []string{"re:dotall"}
+			case 3:
+				return a + `[\s\S]*` + b, []string{"re:dotall"}
+			case 4:
+				return a + `(?s:.)*` + b + "(?s:.*)" + b, []string{"re:dotall"}
+			default:
+				return a + ".*" + b, []string{"re:crossline-plain"}
+			}
+		}
+		return lit() + "(?s:.*)" + lit(), []string{"re:dotall"}
 	default:
 		return lit() + ".*" + lit() + ".*" + lit(), []string{"re:concat3"}
 	}
+}
+
+// crossLinePair picks two words of at least three runes from two different
+// lines (in order) of some document.
+func crossLinePair(g G, c *Corpus) (string, string, bool) {
+	for try := 0; try < 4; try++ {
+		r := &c.Repos[g.U(len(c.Repos), "clrepo")]
+		if len(r.Docs) == 0 {
+			continue
+		}
+		d := &r.Docs[g.U(len(r.Docs), "cldoc")]
+		lines := strings.Split(string(d.EffectiveContent()), "\n")
+		var ws [][]string
+		for _, l := range lines {
+			var w []string
+			for _, x := range strings.FieldsFunc(l, func(r rune) bool { return r == ' ' || r == '\t' || r == '\r' }) {
+				if utf8.RuneCountInString(x) >= 3 {
+					w = append(w, x)
+				}
+			}
+			ws = append(ws, w)
+		}
+		var have []int
+		for i, w := range ws {
+			if len(w) > 0 {
+				have = append(have, i)
+			}
+		}
+		if len(have) < 2 {
+			continue
+		}
+		i := g.U(len(have)-1, "cll1")
+		j := i + 1 + g.U(len(have)-i-1, "cll2")
+		return regexp.QuoteMeta(Pick(g, ws[have[i]], "clw1")), regexp.QuoteMeta(Pick(g, ws[have[j]], "clw2")), true
+	}
+	return "", "", false
 }
 
 // sameLinePair picks a line of some document that holds two words of at
@@ -609,7 +773,7 @@ func genAtom(g G, c *Corpus, o QueryOpts) (QSpec, []string) {
 		}
 		return q, []string{"branchesrepos"}
 	case 5:
-		return QSpec{Op: "meta", Field: Pick(g, []string{"team", "lang", "nope"}, "mf"), Pat: Pick(g, []string{"alpha", "^alpha$", "beta", "go", ".", "nope", "(?i)ALPHA"}, "mv")}, []string{"meta"}
+		return QSpec{Op: "meta", Field: Pick(g, []string{"team", "lang", "nope"}, "mf"), Pat: Pick(g, []string{"alpha", "^alpha$", "beta", "go", ".", "nope", "(?i)ALPHA", ".*", "^$", "a*", "(alpha)?"}, "mv")}, []string{"meta"}
 	default:
 		bits := []int{0, 1, 2}[g.Int(0, 2, "rc1")] | []int{0, 4, 8}[g.Int(0, 2, "rc2")] | []int{0, 16, 32}[g.Int(0, 2, "rc3")]
 		return QSpec{Op: "rawconfig", Num: float64(bits)}, []string{"rawconfig"}
